@@ -105,9 +105,14 @@ func combos(thorough bool) []combo {
 			}
 		}
 		if f == "v5beta" || f == "v5r1" {
-			nets = []*int32{nil, i32(-239), i32(-3), i32(1)}
+			// mainnet, testnet, a small id; ids that need more than 16 / more than 24 bits, both signs; ids equal to
+			// testnet / mainnet modulo 2^16 (65533, -65775), modulo 2^8 (253) and modulo 2^24 (16777213): the whole
+			// 32-bit id goes into the wallet id, so all of them are different wallets
+			nets = []*int32{nil, i32(-239), i32(-3), i32(1), i32(65533), i32(-65775), i32(253), i32(16777213),
+				i32(2147483647), i32(-2147483647)}
 			if thorough {
-				nets = append(nets, i32(0), i32(42), i32(-1), i32(2147483647), i32(-2147483647))
+				nets = append(nets, i32(0), i32(42), i32(-1), i32(17), i32(65297), i32(-16777455), i32(32768), i32(-32769),
+					i32(8388608), i32(-8388609))
 			}
 		} else {
 			nets = []*int32{nil, i32(-3)}
